@@ -822,6 +822,7 @@ func xplan(thorough bool) []xconfig {
 			{name: "os-device/fragmentation-3coords-2sizes", coords: c3, sizes: []int{1, 4093}, reopen: true, depth: 5, share: 6 * time.Second},
 			{name: "os-device/crash-then-continue-3coords-2sizes", coords: c3, sizes: []int{1, 4093}, depth: 2, crash: true, post: 2, share: 8 * time.Second},
 			{name: "os-device/with-empty-writes-2coords-3sizes", coords: c2, sizes: []int{0, 1, 4093}, reopen: true, depth: 0, share: 4 * time.Second},
+			{name: "os-device/refused-oversize-write-then-continue-2coords", coords: c2, sizes: []int{1, 4093, regionx.MaxPayload + 1}, depth: 4, share: 6 * time.Second},
 			{name: "os-device/sector-numbers-around-256-2coords-2sizes", prefix: high, coords: c2, sizes: []int{1, 4093}, reopen: true, depth: 5, share: 4 * time.Second},
 			{name: "os-device/region.Open-on-real-files-2coords-3sizes", coords: c2, sizes: []int{1, 4093, 8189}, pad: true, reopen: true, depth: 4, openLen: -1, share: 8 * time.Second},
 		}
@@ -831,6 +832,7 @@ func xplan(thorough bool) []xconfig {
 		{name: "os-device/fragmentation-3coords-2sizes", coords: c3, sizes: []int{1, 4093}, reopen: true, depth: 7, share: time.Minute},
 		{name: "os-device/crash-then-continue-3coords-2sizes", coords: c3, sizes: []int{1, 4093}, reopen: true, depth: 3, crash: true, post: 2, share: 2 * time.Minute},
 		{name: "os-device/with-empty-writes-3coords-3sizes", coords: c3, sizes: []int{0, 1, 4093}, reopen: true, pad: true, depth: 6, share: 30 * time.Second},
+		{name: "os-device/refused-oversize-write-then-continue-3coords", coords: c3, sizes: []int{1, 4093, regionx.MaxPayload + 1}, reopen: true, depth: 5, share: 45 * time.Second},
 		{name: "os-device/sector-numbers-around-256-3coords-2sizes", prefix: high, coords: c3, sizes: []int{1, 4093}, reopen: true, depth: 6, share: time.Minute},
 		{name: "os-device/region.Open-on-real-files-2coords-3sizes", coords: c2, sizes: []int{1, 4093, 8189}, pad: true, reopen: true, openLen: -1, share: 90 * time.Second},
 		{name: "os-device/region.Open-on-real-files-3coords-2sizes", coords: c3, sizes: []int{1, 4093}, reopen: true, depth: 5, openLen: -1, share: 45 * time.Second},
